@@ -46,7 +46,7 @@ REQUIRED_MONITORS = ['records_vs_model', 'label_vs_model', 'label_sweep', 'reite
 MIN_NONTRIVIAL = {'quick': 20000, 'thorough': 1200000}
 TIMEOUT_S = {'quick': 300, 'thorough': 3000}
 NSHARDS = 16
-N_RANDOM = {'quick': 3200, 'thorough': 160000}          # random files, all shards together
+N_RANDOM = {'quick': 3200, 'thorough': 100000}          # random files, all shards together
 SCOPE = {
     # L_all: every composition for payload length <= L_all; L_k: compositions into <= K parts for lengths up to L_k;
     # L_zero: cuts with zero-length segments (<= 3 segments); L_pair: both payloads 0..L_pair in <= 3 segments; L_enc: encrypted
@@ -259,6 +259,27 @@ class Checker:
                 self.violation('path_vs_stream', 'raised', 'reading the same bytes from a path raised %s: %s' % (type(e).__name__, e),
                                self.base_witness(data, model, how), exc=e)
 
+    def check_file_bulk(self, data, model, how):
+        """check_file for enumerated members: not registered one by one as cases (bulk_cases does that)."""
+        rec, File = self.rec, self.File
+        rec.mon('records_vs_model')
+        for c in model.classes():
+            rec.cls('enum:' + c)
+        try:
+            with File.FileRead(io.BytesIO(data)) as fr:
+                self.compare_label(fr.sul, model.sul, data, model, how)
+                events = self.read_events(fr)
+                self.compare_events(events, model, data, how)
+                rec.add('iterator_events', len(events))
+        except Exception as e:
+            label_refused = 'can not construct SUL' in str(e)
+            w = self.base_witness(data, model, how)
+            if label_refused:
+                w.update(label_fields={'sequence': model.sul.seq_text, 'maximum_record_length': model.sul.max_text,
+                                       'version': model.sul.version}, error=str(e))
+            self.violation('label_vs_model' if label_refused else 'records_vs_model', 'label-refused' if label_refused else 'raised',
+                           'reading a conformant file raised %s: %s' % (type(e).__name__, e), w, exc=e)
+
 
 # --------------------------------------------------------------------------------------------- workloads
 def random_files(ctx, ck, rng, n):
@@ -349,31 +370,6 @@ def enumerated(ctx, ck, rng, p):
                 nt += model.is_nontrivial() or padbit > 0
     rec.bulk_cases('one encrypted payload of even length <= %d cut into <= 4 conformant segments x checksum x trailing length x padding bit x 3 packings'
                    % scope['L_enc'], evals, nt, exhaustive=True, sample={'space_size': len(space) * 6})
-
-
-def _check_file_bulk(self, data, model, how):
-    """check_file for enumerated members: not registered one by one as cases (bulk_cases does that)."""
-    rec, File = self.rec, self.File
-    rec.mon('records_vs_model')
-    for c in model.classes():
-        rec.cls('enum:' + c)
-    try:
-        with File.FileRead(io.BytesIO(data)) as fr:
-            self.compare_label(fr.sul, model.sul, data, model, how)
-            events = self.read_events(fr)
-            self.compare_events(events, model, data, how)
-            rec.add('iterator_events', len(events))
-    except Exception as e:
-        label_refused = 'can not construct SUL' in str(e)
-        w = self.base_witness(data, model, how)
-        if label_refused:
-            w.update(label_fields={'sequence': model.sul.seq_text, 'maximum_record_length': model.sul.max_text,
-                                   'version': model.sul.version}, error=str(e))
-        self.violation('label_vs_model' if label_refused else 'records_vs_model', 'label-refused' if label_refused else 'raised',
-                       'reading a conformant file raised %s: %s' % (type(e).__name__, e), w, exc=e)
-
-
-Checker.check_file_bulk = _check_file_bulk
 
 
 def label_sweep(ctx, ck, rng, p):
